@@ -62,6 +62,7 @@ type Stats struct {
 	Horizon      int            `json:"horizon_hits"`
 	Pruned       int            `json:"pruned_subtrees"`
 	MaxPoints    int            `json:"max_points"`
+	BodyParked   int            `json:"body_parked"` // checked executions that ended with the scenario's body thread still blocked
 	Sample       []int          `json:"sample,omitempty"`
 	SampleTrace  []string       `json:"sample_trace,omitempty"`
 	InternalErrs []string       `json:"internal_errors,omitempty"`
@@ -250,6 +251,9 @@ func (e *explorer) explore(prefix []int, depth int) {
 		if x.HorizonHit {
 			e.stats.Horizon++
 		}
+		if len(x.Threads) > 0 && !x.Threads[0].Done {
+			e.stats.BodyParked++
+		}
 		if e.sc.Outcome != nil {
 			e.stats.Outcomes[e.sc.Outcome(x)]++
 		}
@@ -382,6 +386,7 @@ func Main(run *evid.Run, scenarios []*Scenario, budget time.Duration) {
 			}
 			todo = append(todo, sc)
 		}
+		var results []result
 		for i, sc := range todo {
 			// every scenario gets an equal share of the remaining time budget
 			scDeadline := deadline
@@ -392,12 +397,41 @@ func Main(run *evid.Run, scenarios []*Scenario, budget time.Duration) {
 				}
 				scDeadline = time.Now().Add(remaining / time.Duration(len(todo)-i))
 			}
-			res := exploreScenario(sc, shard, shards, scDeadline)
+			results = append(results, exploreScenario(sc, shard, shards, scDeadline))
+		}
+		// second pass: scenarios that ran out of their share are explored again (the search is
+		// deterministic, so a longer run covers a superset) with the time the others left over
+		var capped []int
+		for i, r := range results {
+			if !r.Stats.Exhaustive && r.Stats.CapHit == "time budget" {
+				capped = append(capped, i)
+			}
+		}
+		for j, i := range capped {
+			remaining := time.Until(deadline)
+			if deadline.IsZero() || remaining < 3*time.Second {
+				break
+			}
+			r2 := exploreScenario(todo[i], shard, shards, time.Now().Add(remaining/time.Duration(len(capped)-j)))
+			if r2.Stats.Exhaustive || r2.Stats.Execs >= results[i].Stats.Execs {
+				seen := map[string]bool{}
+				for _, v := range r2.Violations {
+					seen[v.Finding.Kind+"|"+v.Finding.Site] = true
+				}
+				for _, v := range results[i].Violations {
+					if !seen[v.Finding.Kind+"|"+v.Finding.Site] {
+						r2.Violations = append(r2.Violations, v)
+					}
+				}
+				results[i] = r2
+			}
+		}
+		for _, res := range results {
 			data, _ := json.Marshal(res)
 			w.Write(data)
 			w.WriteByte('\n')
-			w.Flush()
 		}
+		w.Flush()
 		os.Exit(0)
 	}
 	if rf := run.ReplayFile(); rf != "" {
@@ -427,6 +461,12 @@ func Main(run *evid.Run, scenarios []*Scenario, budget time.Duration) {
 			}
 		}
 		os.Exit(0)
+	}
+	if v := os.Getenv("VERIF_BUDGET_SCALE"); v != "" {
+		// development aid (smoke-testing a tier's configurations quickly); never set by registered commands
+		if f, err := strconv.ParseFloat(v, 64); err == nil && f > 0 {
+			budget = time.Duration(float64(budget) * f)
+		}
 	}
 	shards := runtime.NumCPU()
 	if v := os.Getenv("VERIF_SHARDS"); v != "" {
@@ -487,7 +527,7 @@ func Main(run *evid.Run, scenarios []*Scenario, budget time.Duration) {
 					rr.Stats.Outcomes = map[string]int{}
 					rr.Stats.Exhaustive = true
 					rr.Stats.BoundDone = 1 << 30
-					rr.Stats.Execs, rr.Stats.Checked, rr.Stats.Transitions, rr.Stats.Horizon, rr.Stats.Pruned = 0, 0, 0, 0, 0
+					rr.Stats.Execs, rr.Stats.Checked, rr.Stats.Transitions, rr.Stats.Horizon, rr.Stats.Pruned, rr.Stats.BodyParked = 0, 0, 0, 0, 0, 0
 					rr.Violations = nil
 					m = &rr
 					merged[r.Scenario] = m
@@ -496,6 +536,7 @@ func Main(run *evid.Run, scenarios []*Scenario, budget time.Duration) {
 				m.Stats.Checked += r.Stats.Checked
 				m.Stats.Transitions += r.Stats.Transitions
 				m.Stats.Horizon += r.Stats.Horizon
+				m.Stats.BodyParked += r.Stats.BodyParked
 				m.Stats.Pruned += r.Stats.Pruned
 				if r.Stats.BoundDone < m.Stats.BoundDone {
 					m.Stats.BoundDone = r.Stats.BoundDone
@@ -527,6 +568,7 @@ func Main(run *evid.Run, scenarios []*Scenario, budget time.Duration) {
 	}
 	sort.Strings(names)
 	totalExecs, totalTrans, totalChecked := 0, 0, 0
+	var bodyNeverFinished []string
 	exhaustive := true
 	var caps []string
 	internal := 0
@@ -545,7 +587,14 @@ func Main(run *evid.Run, scenarios []*Scenario, budget time.Duration) {
 			}
 			_ = v
 		}
-		fmt.Printf("  scenario %-44s execs=%-8d checked=%-8d steps=%-9d pb_done=%d outcomes=%d horizon=%d pruned=%d exhaustive=%v\n", n, m.Stats.Execs, m.Stats.Checked, m.Stats.Transitions, m.Stats.BoundDone, len(m.Stats.Outcomes), m.Stats.Horizon, m.Stats.Pruned, m.Stats.Exhaustive)
+		note := ""
+		if m.Stats.Checked > 0 && m.Stats.BodyParked == m.Stats.Checked {
+			// the scenario body never ran to its end in any execution: a set-up that blocks makes
+			// everything after it unreachable (reported in the evidence, reviewed when a harness changes)
+			note = " BODY-NEVER-FINISHED"
+			bodyNeverFinished = append(bodyNeverFinished, n)
+		}
+		fmt.Printf("  scenario %-44s execs=%-8d checked=%-8d steps=%-9d pb_done=%d outcomes=%d horizon=%d pruned=%d exhaustive=%v%s\n", n, m.Stats.Execs, m.Stats.Checked, m.Stats.Transitions, m.Stats.BoundDone, len(m.Stats.Outcomes), m.Stats.Horizon, m.Stats.Pruned, m.Stats.Exhaustive, note)
 		sched := m.Stats.Sample
 		if sched == nil {
 			sched = []int{}
@@ -585,6 +634,9 @@ func Main(run *evid.Run, scenarios []*Scenario, budget time.Duration) {
 	run.Set("scenarios", len(names))
 	run.Set("exhaustive", exhaustive)
 	run.Set("caps_hit", caps)
+	if len(bodyNeverFinished) > 0 {
+		run.Set("scenarios_whose_body_never_finished", bodyNeverFinished)
+	}
 	run.Set("explanation", "states = complete executions of the real (instrumented) code checked by the oracle, one per distinct schedule within the preemption/deviation bounds; transitions = scheduling points executed; every trace is an implementation trace")
 }
 
